@@ -222,6 +222,46 @@ fn one_case(seed: u64, i: u64, rep: &mut Report) {
             cx.must_not_relay("handshake-prefix+random", &format!("cut={cut}"), &w, &[cut.max(1)]);
         }
     }
+    // (2b) Trojan: credentials that differ from the right one at the level of the transmitted hash
+    if let Proto::Trojan = cfg.proto {
+        let right = refimpl::crypto::sha224_hex(cfg.password.as_bytes()).into_bytes();
+        let mut present = |cx: &mut Cx, class: &str, hash: &[u8]| {
+            let mut w = hash.to_vec();
+            w.extend_from_slice(b"\r\n\x01");
+            refimpl::addr::socks_encode(&target, &mut w);
+            w.extend_from_slice(b"\r\n");
+            w.extend_from_slice(&payload);
+            cx.must_not_relay(class, "", &w, &[]);
+        };
+        // every single hex digit replaced by every other digit
+        for pos in 0..56 {
+            for d in b"0123456789abcdef" {
+                if right[pos] != *d {
+                    let mut h = right.clone();
+                    h[pos] = *d;
+                    present(&mut cx, "trojan-hash-one-digit-differs", &h);
+                }
+            }
+        }
+        // the same bit flipped in two different bytes of the hash (cancels in any xor-folded comparison)
+        let raw: Vec<u8> = (0..28).map(|i| u8::from_str_radix(std::str::from_utf8(&right[2 * i..2 * i + 2]).unwrap(), 16).unwrap()).collect();
+        for i in 0..28 {
+            for j in i + 1..28 {
+                let bit = 1u8 << ((i + j) % 8);
+                let mut r = raw.clone();
+                r[i] ^= bit;
+                r[j] ^= bit;
+                let h: Vec<u8> = r.iter().flat_map(|b| format!("{:02x}", b).into_bytes()).collect();
+                present(&mut cx, "trojan-hash-two-bytes-differ", &h);
+            }
+        }
+        // many unrelated passwords (a comparison that folds the hash to a few bits lets some of them through)
+        for k in 0..4000u32 {
+            let h = refimpl::crypto::sha224_hex(format!("guess-{}-{}", i, k).as_bytes()).into_bytes();
+            present(&mut cx, "trojan-unrelated-password", &h);
+        }
+        // upper-case hex of the right hash is not the credential either? (hex decoding is case-insensitive: the same 28 bytes)
+    }
     // (5) VMess: valid auth id (right user) but header sealed under another key
     if let Proto::Vmess(_) = cfg.proto {
         let ck = cfg.ref_cmd_keys()[cfg.client_uuid];
@@ -282,6 +322,43 @@ fn user_separation(cx: &mut Cx, rng: &mut Rng, now: u64) {
         let mut r = ss::S22ClientReader::new(m, &cfg.server_psk, &salt, now);
         if matches!(r.feed(&resp), Ok(p) if p == b"world") {
             cx.rep.violation(format!("C06|users|{}|tcp|response-opens-under-the-server-key", m.name()), "multi-user response sealed under the server key", json!({"seed": cx.seed, "index": cx.index, "user": u}));
+        }
+        // UDP: every other user, on the SAME client session id: an honest packet of that user must be accepted and
+        // attributed to it; a packet sealed under this user's key but naming the other user must be refused
+        for v in 0..cfg.users.len() {
+            if v == u {
+                continue;
+            }
+            let sid = rng.next_u64();
+            let mk = |pid: u64, payload: &[u8]| ss::S22UdpPacket { session_id: sid, packet_id: pid, type_byte: 0, timestamp: now, client_session_id: None, padding: vec![], addr: target.clone(), payload: payload.to_vec() };
+            let mut as_v = cfg.clone();
+            as_v.client_user = Some(v);
+            // u opens session sid
+            let w1 = ss::s22_udp_client_encode(m, &as_user.ref_client_keys(), &mk(1, b"from-u"), &rng.arr());
+            // forged: sealed by u, labelled v
+            let w2 = ss::s22_udp_client_encode_forged(m, &cfg.server_psk, &cfg.users[u].1, &cfg.users[v].1, &mk(2, b"forged"), &rng.arr());
+            // honest v on the same session id
+            let w3 = ss::s22_udp_client_encode(m, &as_v.ref_client_keys(), &mk(3, b"from-v"), &rng.arr());
+            let mut res = Vec::new();
+            for w in [&w1, &w2, &w3] {
+                let mut src = BytesMut::from(&w[..]);
+                res.push(match guarded(|| udp.decode(&mut src)) {
+                    Ok(Some(d)) => Some(d.user.unwrap_or_default()),
+                    _ => None,
+                });
+            }
+            cx.rep.evaluations += 1;
+            cx.rep.mon("cross_user_same_session_trials", 1);
+            let (nu, nv) = (cfg.users[u].0.clone(), cfg.users[v].0.clone());
+            if res[0].as_deref() != Some(nu.as_str()) {
+                cx.rep.violation(format!("C06|users|{}|udp|registered-user-refused", m.name()), "a registered user's datagram was not accepted", json!({"seed": cx.seed, "index": cx.index, "user": u}));
+            }
+            if res[1].is_some() {
+                cx.rep.violation(format!("C06|users|{}|udp|datagram-sealed-by-one-user-accepted-as-another", m.name()), format!("a datagram sealed under {nu}'s key with an identity header naming {nv} was accepted (attributed to {:?})", res[1]), json!({"seed": cx.seed, "index": cx.index, "sealed_by": u, "labelled": v, "same_session_id": true}));
+            }
+            if res[2].as_deref() != Some(nv.as_str()) {
+                cx.rep.violation(format!("C06|users|{}|udp|user-refused-or-misattributed-on-a-session-id-used-by-another-user", m.name()), format!("{nv}'s honest datagram on a session id previously used by {nu} came out as {:?}", res[2]), json!({"seed": cx.seed, "index": cx.index, "first_user": u, "second_user": v}));
+            }
         }
         // UDP: attribution and reply key
         let keys = as_user.ref_client_keys();
